@@ -189,7 +189,7 @@ PLAN = {
     "C12": {"level": "exploration", "engines": _model("ts"), "min_nontrivial": 300, "assumptions": MODEL_ASSUMPTIONS},
     "C13": {"level": "exploration", "engines": _both(_model("mem"), MEMLIMIT, _conc("lin", 6, 12, {"histories": 400}, {"histories": 8000})), "min_nontrivial": 300, "assumptions": MODEL_ASSUMPTIONS + CONC_ASSUMPTIONS},
     "C14": {"level": "exploration", "engines": _both(_model("range"), SCAN), "min_nontrivial": 300, "assumptions": MODEL_ASSUMPTIONS + CONC_ASSUMPTIONS},
-    "C16": {"level": "exploration", "engines": _both(_model("cache", configs="cachepair", quick_programs=60, thorough_programs=1500), _conc("reuse", 4, 8, {"runs": 3}, {"runs": 60}), _cache), "min_nontrivial": 200, "assumptions": MODEL_ASSUMPTIONS + CONC_ASSUMPTIONS},
+    "C16": {"level": "exploration", "engines": _both(_model("cache", configs="cachepair", quick_programs=60, thorough_programs=1500), _conc("reuse", 8, 16, {"runs": 6, "cache": 1}, {"runs": 120, "cache": 1}), _cache), "min_nontrivial": 200, "assumptions": MODEL_ASSUMPTIONS + CONC_ASSUMPTIONS},
     "C06": {
         "level": "exploration",
         "engines": _fsm,
